@@ -135,14 +135,14 @@ class NsHandler:
         name = _edge_junk_rex.sub('', title.replace("_", " "))
         name = re.sub(r' +', ' ', name)
         if name.startswith(":"):
-            name = name[1:].strip()
+            name = _edge_junk_rex.sub('', name[1:])
             defaultns = 0
 
         if ":" in name:
             namespace, partial_name = name.split(":", 1)
             was_namespace, nsnum, prefix = self._find_namespace(namespace,
                                                                 defaultns=defaultns)
-            suffix = partial_name.strip() if was_namespace else name
+            suffix = _edge_junk_rex.sub('', partial_name) if was_namespace else name
         else:
             prefix = self.siteinfo["namespaces"][str(defaultns)]["*"]
             suffix = name
